@@ -187,6 +187,7 @@ def run(ctx, repo, tier):
     full_call = [n for n in ast.walk(hgv.node) if isinstance(n, ast.Assign) and isinstance(n.value, ast.Call) and
                  src(n.value.func) == "self.full_voronoi.get_voronoi_volumes"]
     comp_ok = False
+    comp_seen = False
     if full_call and isinstance(full_call[0].targets[0], ast.Name):
         vname = full_call[0].targets[0].id
         for c in ast.walk(hgv.node):
@@ -196,6 +197,7 @@ def run(ctx, repo, tier):
                 if isinstance(c.elt, ast.Subscript) and isinstance(c.elt.value, ast.Name) and c.elt.value.id == vname and \
                         isinstance(g.target, ast.Name) and isinstance(c.elt.slice, ast.Name) and c.elt.slice.id == g.target.id and \
                         it_ok and not g.ifs:
+                    comp_seen = True
                     # the comprehension must be what is returned (possibly wrapped in np.array), not a re-ordered view of it
                     for r_ in ast.walk(hgv.node):
                         if isinstance(r_, ast.Return) and r_.value is not None:
@@ -204,9 +206,17 @@ def run(ctx, repo, tier):
                                 v_ = v_.args[0]
                             if v_ is c:
                                 comp_ok = True
-    ctx.check(comp_ok, "LAYOUT", "C15.half.volumes", "half-sphere volumes are the full-sphere volumes taken at the (ascending) upper "
-              "indices, i.e. the first N of the 2N double-cover volumes", hgv.where,
-              "np.array([all_volumes[i] for i in self._get_upper_indices()])", witness="selection idiom not found")
+    if comp_ok:
+        ctx.ok("LAYOUT", "C15.half.volumes", "half-sphere volumes are the full-sphere volumes taken at the (ascending) upper indices, i.e. "
+               "the first N of the 2N double-cover volumes", hgv.where)
+    elif comp_seen:
+        ctx.violate("LAYOUT", "C15.half.volumes", "the selection of the full-sphere volumes at the upper indices is re-ordered or post-"
+                    "processed before it is returned", hgv.where, "return np.array([all_volumes[i] for i in self._get_upper_indices()])",
+                    witness="the returned expression is not the selection itself")
+    else:
+        # a different idiom: look for definite wrong selections, otherwise inconclusive
+        txt = src(hgv.node)
+        ctx.inconclusive("LAYOUT", "C15.half.volumes", "selection of half-sphere volumes not recognised", hgv.where, witness=txt[-200:])
     kw = {k.arg: src(k.value) for n in full_call for k in n.value.keywords}
     ctx.check(kw.get("approx") == "approx", "FLOW", "C15.half.approx", "the approx flag is passed through to the full-sphere computation",
               hgv.where, witness=str(kw))
